@@ -45,17 +45,17 @@ func DrawCfg(t *rapid.T, plainBias int, rss []int) world.Cfg {
 // Gen draws steps from the state of the reference model so that interesting calls are
 // constructed, not filtered for.
 type Gen struct {
-	Comps    []string
+	Comps []string
 	// SuffixNames: the components include names ending in the pipeline suffix
 	SuffixNames bool
 	suffixed    string
-	Weights  map[string]int
-	MaxSize  int
-	RS       int
-	ops      []string
-	Avoid    func(s Step, mr *MRunner) string // guard name if the step must be steered away
-	Excluded map[string]int
-	Markers  bool // C09: every name, content, owner and timestamp carries a marker
+	Weights     map[string]int
+	MaxSize     int
+	RS          int
+	ops         []string
+	Avoid       func(s Step, mr *MRunner) string // guard name if the step must be steered away
+	Excluded    map[string]int
+	Markers     bool // C09: every name, content, owner and timestamp carries a marker
 }
 
 // Marker values used when Gen.Markers is set (DESIGN §4/C09).
@@ -381,7 +381,6 @@ func (g *Gen) closeStep(t *rapid.T, mr *MRunner) Step {
 	u := usedSlots(mr)
 	return Step{Op: "close", Slot: rapid.SampledFrom(u).Draw(t, "slot")}
 }
-
 
 // PipelineSuffix is the suffix STFS appends to the tape name of a content record under cfg
 // (internal/suffix); names that already end in it are the edge the indexer's stripping rule
